@@ -67,7 +67,10 @@ class C16(Plugin):
             # cells while the converter holds only the first `early` records; the other records are then added to the SAME converter
             # and the observed call follows (bulk = element-wise application of what the scalar method answers NOW)
             early = rng.choice([len(recs)] * 3 + list(range(len(recs))))
-            yield [recs, d, tag, flags, rows, col, target, header, mode, [], early]
+            # row labels of the data frame: 0 the default RangeIndex, 1 reversed integers, 2 integers with gaps (a filtered frame),
+            # 3 strings, 4 duplicated labels -- bulk conversion is per ROW, whatever the rows are called
+            ix = rng.choice([0, 0, 0, 1, 2, 3, 4]) if mode == 0 else 0
+            yield [recs, d, tag, flags, rows, col, target, header, mode, [], early, ix]
 
     def observe(self, case):
         import pandas as pd
@@ -94,10 +97,20 @@ class C16(Plugin):
             sf = getattr(c, FN[tag])
         cells = list(dict.fromkeys(r[col] for r in rows if len(r) > col))
         table = [[x, qprops.outcome(lambda: sf(x, strict=bool(st), passthrough=bool(pa)), qprops.v_ostr)] for x in cells]
-        case = list(case[:9]) + [table, early]
+        ix = case[11] if len(case) > 11 else 0
+        case = list(case[:9]) + [table, early, ix]
         if mode == 0:
             ncols = max([len(r) for r in rows], default=col + 1)
             df = pd.DataFrame(rows, columns=list(range(ncols))) if rows else pd.DataFrame({j: pd.Series([], dtype=object) for j in range(ncols)})
+            n = len(rows)
+            if ix == 1:
+                df.index = list(range(n - 1, -1, -1))
+            elif ix == 2:
+                df.index = [2 * i + 5 for i in range(n)]
+            elif ix == 3:
+                df.index = ["r%d" % i for i in range(n)]
+            elif ix == 4:
+                df.index = [i // 2 for i in range(n)]
             f = getattr(c, "pd_" + FN[tag])
             try:
                 f(df, column=col, **qprops.flags(target_column=None if target < 0 else target), **kw)
@@ -180,6 +193,9 @@ class C16(Plugin):
         o = acc.setdefault("outcome_hist", {})
         o[str(obs[0])] = o.get(str(obs[0]), 0) + 1
         acc["cells_converted"] = acc.get("cells_converted", 0) + len(case[4])
+        if len(case) > 11 and case[8] == 0:
+            h2 = acc.setdefault("data_frame_row_labels (0 RangeIndex, 1 reversed, 2 with gaps, 3 strings, 4 duplicated)", {})
+            h2[str(case[11])] = h2.get(str(case[11]), 0) + 1
         if len(case) > 10 and case[10] < len(case[0]):
             acc["cases_with_a_warm_up_call_before_the_converter_was_complete"] = acc.get("cases_with_a_warm_up_call_before_the_converter_was_complete", 0) + 1
 
